@@ -77,10 +77,15 @@ impl AuthenticationRequest {
         data: &[u8],
         parameter: impl Into<AuthenticationParameter>,
     ) -> Result<Self, TryFromSliceError> {
-        let (challenge, data) = data.split_at(32);
-        let (application, data) = data.split_at(32);
-        let (handle_len, data) = data.split_at(1);
-        let key_handle = data[..handle_len[0] as usize].to_vec();
+        let (challenge, data) = data.split_at(data.len().min(32));
+        let (application, data) = data.split_at(data.len().min(32));
+        let (handle_len, data) = data.split_at(data.len().min(1));
+        let handle_len: [u8; 1] = handle_len.try_into()?;
+        let key_handle = match data.get(..handle_len[0] as usize) {
+            Some(key_handle) => key_handle.to_vec(),
+            // Force a `TryFromSliceError` as it cannot be constructed directly.
+            None => return Err(<[u8; 1]>::try_from(&[][..]).unwrap_err()),
+        };
         Ok(Self {
             parameter: parameter.into(),
             challenge: challenge.try_into()?,
